@@ -316,7 +316,12 @@ class Ctx:
             ok_drv, out_drv = lake_build(['pvdriver'])
             if not ok_drv:
                 # which modules failed?  only those this property's theorems or driver module depend on are its concern
-                failed = set(re.findall(r'PromVerif/([A-Za-z0-9_/]+)\.lean:\d+:\d+: error', out_drv))
+                failed = set()
+                for ln in out_drv.split('\n'):
+                    if 'error' in ln:
+                        failed.update(re.findall(r'PromVerif/([A-Za-z0-9_/]+)\.lean:\d+:\d+', ln))
+                failed.update(re.findall(r'✖ \[\d+/\d+\] Building PromVerif\.([A-Za-z0-9_.]+)', out_drv))
+                failed = {f.replace('.', '/') for f in failed}
                 failed = {'PromVerif.' + f.replace('/', '.') for f in failed}
                 mine = import_closure(['PromVerif.Props.' + self.prop, 'PromVerif.Drv.' + self.prop])
                 if not failed or failed & mine:
